@@ -364,6 +364,17 @@ pub fn catalogue(w: &World, tier: &str, seed: u64, reps: usize) -> Vec<FaultCase
                         FaultAction { target: t("RNG comm", k), what: What::Reflect },
                         FaultAction { target: t("RNG ver", k), what: What::Reflect },
                     ]));
+                    if k == 0 || n == 2 {
+                        // mirrored both ways: the cheater's own (honest) code sees its own contribution as
+                        // the victim's, so both sides would derive the same, cheater-known coins (seed ^ seed)
+                        let back = |label: &str| Target { from: *victim, to: Some(c), label: label.to_string(), k: Some(k) };
+                        combos.push((format!("coin-toss-reflected-commitment-and-opening:cheater-continues:toss{k}"), vec![
+                            FaultAction { target: t("RNG comm", k), what: What::Reflect },
+                            FaultAction { target: t("RNG ver", k), what: What::Reflect },
+                            FaultAction { target: back("RNG comm"), what: What::Reflect },
+                            FaultAction { target: back("RNG ver"), what: What::Reflect },
+                        ]));
+                    }
                 }
                 for k in occ("fashare comm") {
                     combos.push((format!("ashare-reflected-commitments-and-openings:batch{}", k.min(1)), vec![
